@@ -192,6 +192,16 @@ def replay_walk(ctx, steps):
             pubv = list(np.asarray(pub).reshape(-1)) if isinstance(pub, np.ndarray) else list(pub)
             if len(pubv) != len(vec) or (not want_syms and not same([complex(x) for x in pubv], vec)):
                 return [("amplitudes-accessor", "%s: object %d: the amplitudes property disagrees with the state" % (where, j + 1))]
+            # probabilities are the squared magnitudes - entry by entry, also while other entries are still symbols
+            if want_syms and op in ("new", "set", "bind", "flip"):
+                try:
+                    pr = list(np.asarray(wf.get_probabilities(), dtype=object).reshape(-1))
+                    for a_, p_ in zip(vec, pr):
+                        if "n" in a_ and not getattr(p_, "free_symbols", None):
+                            if abs(complex(p_) - abs(ring(a_["n"])) ** 2) > 1e-9:
+                                return [("probabilities:symbolic", "%s: object %d (still symbolic): the probability reported for the numeric entry %s is %s, its squared magnitude is %s" % (where, j + 1, complex(ring(a_["n"])), p_, abs(ring(a_["n"])) ** 2))]
+                except (TypeError, ValueError):
+                    pass
             # the statement itself, on the real object: normalised after every step
             nums = [p for p in pj if not isinstance(p, str)]
             tot = sum(abs(p) ** 2 for p in nums)
